@@ -114,6 +114,26 @@ def replay_case(arg):
                 fail('Solution', 'shape', dict(ctx, got=list(out.shape), expected=list(exp_out.shape)))
             elif not interp.close(out, exp_out, rtol=1e-6, atol=1e-8):
                 fail('Solution', 'outputs', dict(ctx, got=out.tolist(), expected=exp_out.tolist()))
+        # ---- the same outputs selected again in ANOTHER order while sensitivities are on: whatever the model returns next
+        # (chi switches the sensitivities off; a model that kept them would have to re-order them) follows the new order
+        if not fails and free and len(set(onames)) >= 2:
+            perm = list(np.roll(np.arange(len(onames)), 1))
+            model.set_outputs([onames[q] for q in perm])
+            with warnings.catch_warnings():
+                warnings.simplefilter('error', RuntimeWarning)
+                res = model.simulate(vfree.copy(), times.copy())
+            cnt['evaluations'] = cnt.get('evaluations', 0) + 1
+            cnt['outputs_reordered_with_sensitivities_on'] = 1
+            if list(model.outputs()) != [onames[q] for q in perm]:
+                fail('OutputsOK', 'outputs_after_reorder', dict(got=model.outputs()))
+            if model.has_sensitivities():
+                out2, sens2 = res
+                if not interp.close(np.asarray(sens2, dtype=float), exp_sens[:, perm, :], rtol=1e-6, atol=1e-7):
+                    fail('Solution', 'sensitivities_after_output_reorder', dict(order=[onames[q] for q in perm]))
+            else:
+                out2 = res
+            if not interp.close(np.asarray(out2, dtype=float), exp_out[perm], rtol=1e-6, atol=1e-8):
+                fail('Solution', 'outputs_after_output_reorder', dict(order=[onames[q] for q in perm]))
         # ---- the same file behind an absorption compartment (SBMLOrder!PublishedAdmin) -----------------------
         # set_administration(direct=False) adds a state and a constant that sort to the FRONT of their groups; the
         # published order, the hand-over of values and the selection of sensitivities by name must follow.
